@@ -470,6 +470,10 @@ class ValuesSuite(common.Suite):
         return out
 
     def model_case(self, case):
+        # Expression strings are identified by their NFC-normalised form (the Specification's notion of string equality;
+        # String.__eq__/__hash__ since repo fix 5c4ff03): the key model receives the normal form, computed here with
+        # unicodedata (trusted reference), as the code points of the string.
+        case = nfc_values(case)
         c = {"id": case["id"], "kind": case["kind"]}
         if case["kind"] == "bls":
             c.update(nodes=case["nodes"], a=case["a"], b=case["b"])
@@ -571,6 +575,35 @@ class ValuesSuite(common.Suite):
         return impl.get("res") == "ok"
 
 
+def nfc_cps(cps):
+    import unicodedata
+
+    try:
+        return [ord(c) for c in unicodedata.normalize("NFC", "".join(chr(c) for c in cps))]
+    except (ValueError, TypeError):
+        return list(cps)
+
+
+def nfc_value(v):
+    if isinstance(v, list) and v and v[0] == "str":
+        return ["str", nfc_cps(v[1])]
+    if isinstance(v, list) and v and v[0] == "set":
+        return ["set", [nfc_value(x) for x in v[1]]]
+    return v
+
+
+def nfc_values(case):
+    c = dict(case)
+    if case.get("kind") == "value":
+        c["a"], c["b"] = nfc_value(case["a"]), nfc_value(case["b"])
+    elif case.get("kind") == "attr":
+        for side in ("a", "b"):
+            d = dict(case[side])
+            d["value"] = nfc_value(d.get("value"))
+            c[side] = d
+    return c
+
+
 def val_eq(a, b) -> bool:
     if a is None or b is None:
         return a is None and b is None
@@ -578,7 +611,9 @@ def val_eq(a, b) -> bool:
         return False
     if a[0] == "rat":
         return Fraction(a[1], a[2]) == Fraction(b[1], b[2])
-    if a[0] in ("bool", "str"):
+    if a[0] == "str":
+        return nfc_cps(a[1]) == nfc_cps(b[1])
+    if a[0] == "bool":
         return a[1] == b[1]
     return all(any(val_eq(x, y) for y in b[1]) for x in a[1]) and all(any(val_eq(x, y) for y in a[1]) for x in b[1])
 
